@@ -826,6 +826,19 @@ func (fx *Fx) specCall(env *SpecEnv, e *SCall) Val {
 				return Val{T: "true", S: "Bool", GT: boolT}
 			}
 			return Val{T: "(and " + strings.Join(parts, " ") + " true)", S: "Bool", GT: boolT}
+		case "ncalls":
+			// ncalls(f): number of calls made so far through function value f (ghost counter)
+			c.declareFun("fn_code", []string{"Int"}, "Int")
+			return Val{T: fmt.Sprintf("(select %s (fn_code %s))", st.heap("NC", "(Array Int Int)"), arg(0).T), S: "Int", GT: intT}
+		case "intval":
+			// intval(x): the integer (or time, or reference) held by an interface value
+			return Val{T: "(i_val " + arg(0).T + ")", S: "Int", GT: intT}
+		case "chanlb":
+			// chanlb(ch): ghost lower bound of the time values delivered on ch
+			return Val{T: fmt.Sprintf("(select %s %s)", st.heap("CLB", "(Array Int Int)"), arg(0).T), S: "Int", GT: intT}
+		case "ctxdone":
+			c.declareFun("ctx_done", []string{"Iface"}, "Int")
+			return Val{T: "(ctx_done " + arg(0).T + ")", S: "Int", GT: intT}
 		case "fncode":
 			c.declareFun("fn_code", []string{"Int"}, "Int")
 			return Val{T: "(fn_code " + arg(0).T + ")", S: "Int", GT: intT}
@@ -1030,6 +1043,21 @@ func (fx *Fx) specCall(env *SpecEnv, e *SCall) Val {
 		var args []Val
 		for _, a := range e.Args {
 			args = append(args, fx.specEval(env, a))
+		}
+		// pointer-receiver method on an addressable struct variable: the receiver is the variable's address
+		if rs := fn.Type().(*types.Signature).Recv(); rs != nil {
+			_, wantPtr := types.Unalias(rs.Type()).(*types.Pointer)
+			_, isPtr := types.Unalias(x.GT).Underlying().(*types.Pointer)
+			_, isIf := types.Unalias(x.GT).Underlying().(*types.Interface)
+			if wantPtr && !isPtr && !isIf {
+				id, ok := sel.X.(*SIdent)
+				if !ok {
+					sfail("pointer-receiver method %s on a non-variable struct value", sel.Sel)
+				}
+				name := "addr_local_" + sanitize(id.Name)
+				c.declareConst(name, "Int")
+				x = Val{T: name, S: "Int", GT: types.NewPointer(x.GT)}
+			}
 		}
 		return fx.specPureCall(env, fn, &x, args)
 	}
